@@ -37,3 +37,18 @@ for q, f in sorted(m.funcs.items()):
 pi = os.path.join(os.path.dirname(os.path.dirname(os.path.abspath(__file__))), "spec", "reference_ifs.json")
 json.dump(outi, open(pi, "w"), indent=0, sort_keys=True)
 print(len(outi), "functions with two-armed ifs recorded")
+
+# reviewed sources of every module with code (the two pure data tables are left out): sa/equiv.py compares a changed
+# function with its reviewed form modulo refactoring
+import shutil
+rd = os.path.join(os.path.dirname(os.path.dirname(os.path.abspath(__file__))), "spec", "reference_src")
+shutil.rmtree(rd, ignore_errors=True)
+k = 0
+for mod in m.modules.values():
+    if os.path.basename(mod.relpath) in ("glyphlist.py", "fontmetrics.py"):
+        continue
+    dst = os.path.join(rd, mod.relpath)
+    os.makedirs(os.path.dirname(dst), exist_ok=True)
+    open(dst, "w", encoding="utf-8").write(mod.src)
+    k += 1
+print(k, "reviewed module sources stored")
